@@ -76,7 +76,10 @@ static int same_ptr_ok(const char *nm) {
 }
 static const char *zname(int z) { return z == 0 ? "disjoint" : z == 1 ? "hard-overlap" : z == 2 ? "partial-overlap" : "same-pointer"; }
 
-static void exec_c07(const void *k, res_t *r, const runcfg_t *cfg) {
+/* prop 7: the overlap oracle. prop 4 / 5: the same aliasing placements judged by C04's clearing rule / C05's
+   reporting rule only (modules C07C, C07H), so that a clearing or reporting defect that needs overlapping operands
+   is a finding of the property that states it and is not masked by an overlap verdict */
+static void exec_ov(const void *k, res_t *r, const runcfg_t *cfg, int prop) {
     const ocase_t *c = k;
     const row_t *row = &g_rows[c->row];
     int w = row->w;
@@ -156,6 +159,23 @@ static void exec_c07(const void *k, res_t *r, const runcfg_t *cfg) {
     memcpy(after, obj, total * (size_t)w);
     if (row->ret_kind == RK_PTR_ERRP) { failed = errv != EOK; code = errv; }
     else { failed = a.ret != EOK; code = a.ret; }
+    if (prop == 5) {
+        r->nontrivial = failed || zone != 0;
+        if (h_count > 1) { RES_VIOL(r, "C05:%s:handler-invoked-%d-times:aliasing-%s", row->name, h_count, zname(zone)); RES_DETAIL(r, "handler ran %d times (last code %d), the call returned %ld", h_count, h_code, code); }
+        else if (failed && h_count == 0) { RES_VIOL(r, "C05:%s:failure-without-handler:aliasing-%s", row->name, zname(zone)); RES_DETAIL(r, "the call failed with code %ld but no constraint handler ran", code); }
+        else if (!failed && h_count) { RES_VIOL(r, "C05:%s:handler-but-success:aliasing-%s", row->name, zname(zone)); RES_DETAIL(r, "handler ran with code %d but the call reported success", h_code); }
+        else if (failed && h_code != code) { RES_VIOL(r, "C05:%s:handler-code-differs:aliasing-%s", row->name, zname(zone)); RES_DETAIL(r, "handler got %d, the call returned %ld", h_code, code); }
+        return;
+    }
+    if (prop == 4) {
+        const unsigned char *d1 = after + (size_t)OV_DEST * (size_t)w;
+        if (!failed) return;
+        r->nontrivial = 1;
+        if (gc_elem(d1, w, 0) != 0) { RES_VIOL(r, "C04:%s:dest0-nonzero-after-failure:aliasing-%s", row->name, zname(zone)); RES_DETAIL(r, "dest[0]=0x%zx after failure code %ld", gc_elem(d1, w, 0), code); return; }
+        if (!noslack || (row->fl & F_MEM))
+            for (i = 0; i < n; i++) if (gc_elem(d1, w, i) != 0) { RES_VIOL(r, "C04:%s:not-all-cleared-after-failure:aliasing-%s", row->name, zname(zone)); RES_DETAIL(r, "dest[%zu]=0x%zx visible after failure code %ld (dmax %zu elements)", i, gc_elem(d1, w, i), code, n); return; }
+        return;
+    }
     /* nothing outside dest[0,n) may change, whatever happens */
     for (i = 0; i < total; i++)
         if ((i < OV_DEST || i >= OV_DEST + n) && gc_elem(after, w, i) != gc_elem(snap, w, i)) {
@@ -217,7 +237,14 @@ static void exec_c07(const void *k, res_t *r, const runcfg_t *cfg) {
 }
 
 static void ov_init(const runcfg_t *cfg) { (void)cfg; }
+static void exec_c07(const void *k, res_t *r, const runcfg_t *cfg) { exec_ov(k, r, cfg, 7); }
+static void exec_c07c(const void *k, res_t *r, const runcfg_t *cfg) { exec_ov(k, r, cfg, 4); }
+static void exec_c07h(const void *k, res_t *r, const runcfg_t *cfg) { exec_ov(k, r, cfg, 5); }
 
 const module_t mod_C07 = {"C07", sizeof(ocase_t), 1, {1500000, 20000000}, ov_init, gen_c07, exec_c07, ov_describe,
                           "22 copy/concatenate/memcpy/memmove rows; src placed at every element offset relative to dest inside one object (phase 0: all offsets x dmax<=5 x slen<=6 x source length<=6 exhaustively; "
                           "random phase: sizes up to 12 and around 0x20 / 64..130); non-trivial = operand extents intersect, or are adjacent (gap <= 1 element); distinct by decoded placement and sizes"};
+const module_t mod_C07C = {"C07C", sizeof(ocase_t), 1, {1500000, 20000000}, ov_init, gen_c07, exec_c07c, ov_describe,
+                           "the aliasing placements of module C07 (src at every element offset relative to dest inside one object), judged by the clearing rule: after a failure dest[0] is zero and, in the null-slack build, all dmax elements are; non-trivial = the call failed"};
+const module_t mod_C07H = {"C07H", sizeof(ocase_t), 1, {1500000, 20000000}, ov_init, gen_c07, exec_c07h, ov_describe,
+                           "the aliasing placements of module C07, judged by the reporting rule: a failing call invokes the handler exactly once with the code it returns, a succeeding one never; non-trivial = the call failed or the operands are not disjoint"};
